@@ -35,7 +35,11 @@ func (h) Rule() string {
 		"component; searches: seeded corpora of 1-10 documents (1-3 batches, two fields, empty and missing fields, repeated words) with term and nested boolean " +
 		"queries (must/should/must-not, minShould, boosts on every level), each run with and without ExplainScores, one line per hit plus one line with the set of " +
 		"matching documents; a case is non-trivial when " +
-		"its op line is new and (for hits) the document matched through at least one scoring term"
+		"its op line is new and (for hits) the document matched through at least one scoring term; dsearch: corpora of 4-24 documents in 1-4 batches " +
+		"with a rare hot word, then 1-3 rounds that delete 60-100% of the documents WITHOUT the hot word (plus a few with it), update some in place and add fresh " +
+		"ones, with waits for the background merger/persister in between; index configuration crossed over ice v1/v2, memory/file directory, merging off/eager, " +
+		"similarities (b in {0, 0.5, 0.75, 1}, several k1, per-field similarity for title), composite field; the segment plugin is wrapped so that every search " +
+		"reports n, N, sumTotalTermFreq and the deleted-bitmap size PER SEGMENT; normrt: the norm decode chain on every length of contiguous ranges"
 }
 
 // bit pattern; every NaN is printed as the canonical quiet NaN (sign and payload of a NaN are not compared)
@@ -85,10 +89,10 @@ func render(e *search.Explanation) string {
 
 type collStats struct{ total, docs, ttf uint64 }
 
-func (c *collStats) TotalDocumentCount() uint64         { return c.total }
-func (c *collStats) DocumentCount() uint64              { return c.docs }
-func (c *collStats) SumTotalTermFrequency() uint64      { return c.ttf }
-func (c *collStats) Merge(o segment.CollectionStats)    {}
+func (c *collStats) TotalDocumentCount() uint64      { return c.total }
+func (c *collStats) DocumentCount() uint64           { return c.docs }
+func (c *collStats) SumTotalTermFrequency() uint64   { return c.ttf }
+func (c *collStats) Merge(o segment.CollectionStats) {}
 
 type termStats struct{ df uint64 }
 
@@ -407,6 +411,30 @@ func (h) Gen(r *hlib.Rand, tier string, scale int, emit func(string)) {
 			emit(fmt.Sprintf("search %s %s %s", corpus, genQuery(r, 2), kind))
 		}
 	}
+	// ---- phase 2 (appended after the phase-1 stream so that the latter keeps its seeded inputs)
+	// the whole decode chain Float32bits(float32(float64(ComputeNorm(len)))) on EVERY length of contiguous ranges (one line
+	// per range; the model side is `dlSeen`): small lengths exhaustively, the float32 Inf/NaN patterns, the uint32 wrap
+	top := uint64(1 << 20)
+	if tier == "thorough" {
+		top = 1 << 26
+	}
+	for lo := uint64(0); lo < top; lo += 1 << 20 {
+		emit(fmt.Sprintf("normrt %d %d", lo, lo+1<<20-1))
+	}
+	for _, c := range []uint64{0x7f800000, 0x7fc00000, 0x80000000, 0xff800000, 0xffc00000, 1 << 32, 0x17f800000, 1 << 33} {
+		emit(fmt.Sprintf("normrt %d %d", c-40, c+40))
+	}
+	for i := 0; i < 4*scale; i++ {
+		lo := logUniform(r, 33)
+		emit(fmt.Sprintf("normrt %d %d", lo, lo+uint64(r.Intn(5000))))
+	}
+	// real searches on adversarially built indexes (deletions of documents without the term, updates, merges, several
+	// segments, both ice versions, custom similarities incl. b = 1, composite field) with per-segment statistics recorded
+	nD := 40 * scale
+	if tier == "thorough" {
+		nD = 900 * scale
+	}
+	genD(r, nD, emit)
 }
 
 // ------------------------------------------------------------------------------------------------ execution
@@ -418,12 +446,12 @@ func normOf(sim *similarity.BM25Similarity, dl uint64) float64 {
 // ---- queries
 
 type qnode struct {
-	term             bool
-	field, word      string
-	boost            float64
-	min              int
-	musts, shoulds   []*qnode
-	nots             []*qnode
+	term           bool
+	field, word    string
+	boost          float64
+	min            int
+	musts, shoulds []*qnode
+	nots           []*qnode
 }
 
 func parseQuery(s string) (*qnode, string) {
@@ -578,6 +606,12 @@ func (h) Exec(line string, out func(string, string), st *hlib.Stats, work string
 	w := strings.Split(line, " ")
 	st.Count("op:" + w[0])
 	switch w[0] {
+	case "dsearch", "dhit", "dmatchset":
+		execD(w, line, out, st, work)
+		return
+	case "nscore":
+		execN(w, line, out, st, work)
+		return
 	case "search", "hit", "matchset":
 		only := ""
 		if w[0] == "hit" {
@@ -658,6 +692,28 @@ func (h) Exec(line string, out func(string, string), st *hlib.Stats, work string
 		case "norm":
 			sim := similarity.NewBM25Similarity()
 			return strconv.FormatUint(uint64(math.Float32bits(float32(normOf(sim, pu(w[1]))))), 10)
+		case "normrt":
+			sim := similarity.NewBM25Similarity()
+			lo, hi := pu(w[1]), pu(w[2])
+			var sum, odd uint64
+			var firsts []string
+			for l := lo; ; l++ {
+				got := uint64(math.Float32bits(float32(float64(sim.ComputeNorm(int(l))))))
+				sum += got
+				if got != l {
+					odd++
+					if len(firsts) < 6 {
+						firsts = append(firsts, fmt.Sprintf("%d>%d", l, got))
+					}
+				}
+				if l == hi {
+					break
+				}
+			}
+			if len(firsts) == 0 {
+				firsts = []string{"-"}
+			}
+			return fmt.Sprintf("%d %d %s", sum, odd, strings.Join(firsts, ","))
 		case "idf":
 			return fb(similarity.NewBM25Similarity().Idf(pu(w[1]), pu(w[2])))
 		case "score":
